@@ -1936,9 +1936,13 @@ func ExecSelect(query *Query, current []any) ([]any, error) {
 		switch current := current.(type) {
 		case []any:
 			{
-				// an inner array has been evaluated as a table of its own, select
-				// list included: it is a result, not rows to project
-				copy = append(copy, current)
+				// an inner array beside objects is a table of its own, from WHERE
+				// to LIMIT: it is evaluated here, at its position among the rows
+				rs, err := query.execDimension(current)
+				if err != nil {
+					return nil, err
+				}
+				copy = append(copy, rs)
 			}
 		case Map:
 			{
@@ -2016,26 +2020,25 @@ func (query *Query) exec() (result any, err error) {
 	slice := make([]any, 0)
 	dimensions := 0
 	for _, current := range query.from {
+		if _, ok := current.([]any); ok {
+			dimensions++
+		}
+	}
+	for _, current := range query.from {
 		switch current := current.(type) {
 		case []any:
 			{
-				dimensions++
-				copy := CopyQuery(query)
-				copy.postProcessors = nil
-				copy.from = current
-				rs, err := copy.execNested()
+				if dimensions != len(query.from) {
+					// objects and arrays side by side: the rows are evaluated in the
+					// order of the source, so the inner array waits, as the objects do,
+					// until the select list gets to it (ExecSelect)
+					slice = append(slice, current)
+					continue
+				}
+				rs, err := query.execDimension(current)
 				if err != nil {
 					return nil, err
 				}
-				// what the copy deferred is this query's to finish: the post-processors it
-				// registered (they take the `<-` marker out of `*` rows and resolve ASYNC
-				// slots) and the asynchronous calls it started
-				query.postProcessors = append(query.postProcessors, copy.settle)
-				query.wg.Add(1)
-				go func() {
-					copy.wg.Wait()
-					query.wg.Done()
-				}()
 				slice = append(slice, rs)
 			}
 		case Map:
@@ -2104,6 +2107,28 @@ FINALIZE:
 	if query.options.completed != nil {
 		query.options.completed()
 	}
+	return rs, nil
+}
+
+// execDimension evaluates an inner array of the source as a table of its own, on
+// a copy of the query, and returns its result (the nesting of the source is kept)
+func (query *Query) execDimension(rows []any) (any, error) {
+	copy := CopyQuery(query)
+	copy.postProcessors = nil
+	copy.from = rows
+	rs, err := copy.execNested()
+	if err != nil {
+		return nil, err
+	}
+	// what the copy deferred is this query's to finish: the post-processors it
+	// registered (they take the `<-` marker out of `*` rows and resolve ASYNC
+	// slots) and the asynchronous calls it started
+	query.postProcessors = append(query.postProcessors, copy.settle)
+	query.wg.Add(1)
+	go func() {
+		copy.wg.Wait()
+		query.wg.Done()
+	}()
 	return rs, nil
 }
 
